@@ -107,7 +107,7 @@ def selftest_corrupt(ctx, module, cfg, kind, records, mutate, what):
         raise Machinery("selftest: corrupted record (%s) was accepted - the validator constrains nothing" % what)
 
 
-def val_candidates(ctx, cands, rerun, module, cfg, kind, limit=40):
+def val_candidates(ctx, cands, rerun, module, cfg, kind, limit=40, fname="iss_obs.ndjson"):
     """Validation-direction candidates (records TLC rejected): every distinct signature is re-run
     in a fresh process (rerun(replay_path, out_path) must write the new observation record(s)),
     all re-observations are judged by ONE TLC run, and only the still-rejected ones are handed
@@ -126,13 +126,13 @@ def val_candidates(ctx, cands, rerun, module, cfg, kind, limit=40):
         out = ctx.path("cand_%d.ndjson" % len(owner))
         rerun(tmp, out)
         for r in read_ndjson(out):
-            if kind == "mixed":
+            if kind == "mixed" and "kind" in c.get("case", {}):
                 r["kind"] = c["case"]["kind"]
             recs.append(r)
             owner.append(k)
     again = set()
     if recs:
-        for (i, bad, sbad) in tlc_judge(ctx, module, cfg, kind, recs, label="re-judge %d re-run candidates" % len(recs)):
+        for (i, bad, sbad) in tlc_judge(ctx, module, cfg, kind, recs, fname=fname, label="re-judge %d re-run candidates" % len(recs)):
             again.add(owner[i])
     ctx.candidates(None, [c for _, c in todo], limit=limit,
                    reproduce=lambda path, body: json.dumps(body.get("sig", {}), sort_keys=True) in again)
